@@ -163,7 +163,8 @@ class Evaluator:
             l, r = E(a[1]), E(a[2])
             if l[0] != 'i' or r[0] != 'i' or l[1].size() != r[1].size():
                 raise IRTextError('ill-typed ApplyBinaryPrimOp')
-            op = {'Add': lambda x, y: x + y, 'Subtract': lambda x, y: x - y, 'Multiply': lambda x, y: x * y}.get(a[0])
+            op = {'Add': lambda x, y: x + y, 'Subtract': lambda x, y: x - y, 'Multiply': lambda x, y: x * y,
+                  '+': lambda x, y: x + y, '-': lambda x, y: x - y, '*': lambda x, y: x * y}.get(unescape_id(a[0]))
             if op is None:
                 raise IRTextError(f'unsupported binary op {a[0]}')
             return ('i', op(l[1], r[1]))
@@ -172,7 +173,9 @@ class Evaluator:
             if l[0] != 'i' or r[0] != 'i':
                 raise IRTextError('ill-typed ApplyComparisonOp')
             op = {'LT': lambda x, y: x < y, 'LTEQ': lambda x, y: x <= y, 'GT': lambda x, y: x > y,
-                  'GTEQ': lambda x, y: x >= y, 'EQ': lambda x, y: x == y, 'NEQ': lambda x, y: x != y}.get(a[0])
+                  'GTEQ': lambda x, y: x >= y, 'EQ': lambda x, y: x == y, 'NEQ': lambda x, y: x != y,
+                  '<': lambda x, y: x < y, '<=': lambda x, y: x <= y, '>': lambda x, y: x > y,
+                  '>=': lambda x, y: x >= y}.get(unescape_id(a[0]))
             if op is None:
                 raise IRTextError(f'unsupported comparison {a[0]}')
             return ('b', op(l[1], r[1]))
